@@ -74,6 +74,7 @@ def run(tier):
     # ---- T: random bytes, grammar-aware mutations, program names of every length, file/env sources, groups
     g = Gen(SEED * 7 + 4)
     r = g.r
+    g2 = Gen(SEED * 7 + 44)          # command-mode additions draw from their own stream
     ncfg, nraw = (150, 60) if tier == "quick" else (2000, 100)
     blocks = []
     for ci in range(ncfg):
@@ -88,6 +89,10 @@ def run(tier):
             sa["s"] = next(ord(ch) for ch in "GQKZ" if ord(ch) not in used_s); sa["l"] = T("subgroup")
             sa["grp"] = 0
             cfg["args"].append(sa)
+        cmda = None
+        if ci % 3 == 1:
+            # an argument with value mode 'command' (keyed or positional): the rest of argv is joined into its value
+            cmda = g2.add_command(cfg, g2.r.choice(["key", "key", "pos"]), groups=1 + max(a["grp"] for a in cfg["args"]))
         acts = []
         valid = [w for w in (g.spell_line(cfg, l) for l in (gen_valid(g, cfg) for _ in range(4)) if l) if w is not None]
         for k in range(nraw):
@@ -104,6 +109,12 @@ def run(tier):
                 subw = to_words(g.spell_line(sa["sub"], gen_valid(g, sa["sub"]) or [])) if r.random() < 0.7 else []
                 pos = r.choice([len(words), len(words), r.randint(0, len(words))])
                 words = words[:pos] + [key] + subw + words[pos:]
+            if cmda is not None and not cmda["pos"] and g2.r.random() < 0.6:
+                # the key of the command-mode argument anywhere: alone, grouped, glued, with '=', as last word
+                key = g2.r.choice((["-" + chr(cmda["s"]), "-" + chr(cmda["s"]) + "x", "-x" + chr(cmda["s"])] if cmda["s"] else [])
+                                  + (["--" + S(cmda["l"]), "--" + S(cmda["l"]) + "=", "--" + S(cmda["l"]) + "=a"] if cmda["l"] else []))
+                pos = g2.r.choice([len(words), g2.r.randint(0, len(words))])
+                words = words[:pos] + [T(key)] + words[pos:]
             act = {"n": "Eval", "mode": r.choice(["handler", "handler", "groups"]) if any(a["grp"] for a in cfg["args"]) else "handler",
                    "presrc": "none", "filetext": [], "envstr": [], "argv": words, "cmd": [], "tag": {"k": "raw"}}
             src = r.randrange(5)
